@@ -21,6 +21,7 @@ import (
 	"github.com/echovault/sugardb/internal"
 	"github.com/echovault/sugardb/internal/clock"
 	"github.com/echovault/sugardb/internal/constants"
+	"github.com/echovault/sugardb/internal/verif"
 	"io"
 	"net"
 	"strings"
@@ -177,10 +178,12 @@ func (server *SugarDB) handleCommand(ctx context.Context, message []byte, conn *
 		if err != nil {
 			return nil, err
 		}
+		verif.Point("cmd.handled")
 
 		if internal.IsWriteCommand(command, subCommand) && !replay {
 			// Log the command under the database it was executed in (embedded callers have no TCP connection entry).
 			server.aofEngine.LogCommand(ctx.Value("Database").(int), message)
+			verif.Point("cmd.logged")
 		}
 
 		server.stateMutationInProgress.Store(false)
